@@ -19,7 +19,7 @@ partial def loopSql (h : IO.FS.Stream) (out : IO.FS.Stream) (f : Handler) : IO U
   loopSql h out f
 
 def main (args : List String) : IO UInt32 := do
-  let areas : List (String × Handler) := [("storesql", StoreSqlD.handle), ("storesql-enum", StoreSqlD.handleEnum)]
+  let areas : List (String × Handler) := [("storesql", StoreSqlD.handle), ("storesql-enum", StoreSqlD.handleEnum), ("storesql-moves", StoreSqlD.handleMoves)]
   match args with
   | [area] =>
     match areas.find? (·.1 == area) with
